@@ -77,7 +77,8 @@ THEOREMS = [
     "dict_model_laws", "dict_override", "dict_frame", "missing_spec",
     "backends_agree_partial", "agree_queries_partial",
     "index_shared_sha_witness", "sqlite_tree_sha_witness",
-    "reopen_id", "addNode_keeps_keys_unique", "addNode_get",
+    "reopen_id", "commit_get", "addNode_keeps_keys_unique", "addNode_get",
+    "commitNamed_fresh", "name_clash_witness",
 ]
 RULE = ("case = (source: native history | synthetic functional | synthetic non-functional, digest of the op sequence, "
         "checkpoint index, backend, before/after reopen); non-trivial = the prefix contains a sha recorded for two "
@@ -226,7 +227,12 @@ def record_native(seed_tuple, nsteps):
         cache.get_updater = lambda rev: _Recorder(orig(rev), log)
         with store.lock_read():
             store._update_sha_map()
-        return log
+        # generated file ids carry a time stamp and random characters: rename them in order of appearance
+        names = {}
+
+        def fid(x):
+            return names.setdefault(x, b"fid%d" % len(names))
+        return [(r, [o if o[0] == "c" else (o[0], o[1], fid(o[2]), o[3]) for o in ops]) for r, ops in log]
     finally:
         shutil.rmtree(root, ignore_errors=True)
 
@@ -465,6 +471,26 @@ def group_name_clash(groups, upto):
     return False
 
 
+_CLASH_SAFE = [None]
+
+
+def index_survives_name_clash():
+    """probe (once per run): does re-applying a write group keep the earlier index file?
+    When it does, name clashes are ordinary cases for the flat model."""
+    if _CLASH_SAFE[0] is None:
+        import random
+        b = Backend("index")
+        g = [(b"probe-rev", [("b", SHAS[0], b"probe-fid", b"probe-rev"), ("c", b"probe-rev", SHAS[7], SHAS[1], None)])]
+        try:
+            b.apply_group(g, random.Random(0))
+            b.apply_group(g, random.Random(0))
+            b.reopen(False)
+            _CLASH_SAFE[0] = ask(b.cache.idmap, ("c", b"probe-rev")) == hx(SHAS[7])
+        except Exception:
+            _CLASH_SAFE[0] = False
+    return _CLASH_SAFE[0]
+
+
 def classify(ops, q, name, ans, ref):
     """family of a disagreement between backend `name` (answer `ans`) and the
     in-memory backend (answer `ref`) on query q after `ops`; None = unexplained"""
@@ -575,7 +601,7 @@ def run_sequence(ctx, source, groups, functional, sink):
             answers = {}
             # a write group that feeds IndexGitShaMap._name with the same shas as an earlier one
             # overwrites that group's .rix file: outside the flat model, left to the oracle
-            clash = group_name_clash(groups, gi)
+            clash = group_name_clash(groups, gi) and not index_survives_name_clash()
             if clash:
                 ctx.count("index-name-clash-checkpoints")
             for phase in ("live", "reopen", "reopen-format"):
@@ -720,6 +746,7 @@ def run(ctx, nnative=None, nsyn=None):
     nsyn = nsyn or ctx.pick(40, 500)
     sink = ([], [], [], [])
     ctx.extra["backends"] = available_backends()
+    ctx.extra["index_survives_name_clash"] = index_survives_name_clash()
     ctx.extra["tdb"] = "available" if "tdb" in available_backends() else "module not importable: backend not exercised"
     for c in _corpus():
         groups = [[(bytes.fromhex(r), [dec_op(o) for o in ops]) for r, ops in g] for g in c["groups"]]
